@@ -229,7 +229,8 @@ CLAIMED = {
         "DESIGN.md §4 C18, §9",
     ),
     "C19": (
-        "TLC-enumerated window / scan operations with NdArray.tla denotations replayed under every chunk grid",
+        "TLC-enumerated window / scan operations with NdArray.tla denotations replayed under every chunk grid; Blelloch.tla (combine "
+        "plan of the parallel scan) model-checked and the combine tasks of the real graphs validated against it by TLC",
         "Exhaustive within bounds: sliding_window_view alone and under 8 reducers for every window size, cumsum / cumprod "
         "(sequential and blelloch) and diff along every axis, over 1-D sources of 1..8 elements and two 2-D sources (int, float, "
         "bool), each replayed under every chunk grid of its source (128 grids for 8 elements: windows spanning many blocks, blocks "
